@@ -175,9 +175,7 @@ Proof.
   destruct (proto_of (r_type r)) eqn:PO.
   5: { inversion H; subst. eapply o_old; [exact N|apply same_flags_refl]. }
   all: destruct (is_start (r_type r)) eqn:IS;
-       [eapply handle_start_origin; [symmetry; exact PO|exact IS|exact H|exact N] |];
-       (destruct (is_client (r_type r) || needs_tunnel (r_type r))%bool;
-        [eapply handle_cont_origin; [exact IS|exact H|exact N] | inversion H; subst; eapply o_old; [exact N|apply same_flags_refl]]).
+       [eapply handle_start_origin; [symmetry; exact PO|exact IS|exact H|exact N] | eapply handle_cont_origin; [exact IS|exact H|exact N]].
 Qed.
 
 (* ---- provenance of the session flags over histories ---- *)
@@ -315,8 +313,7 @@ Proof.
       (split; [first [exact IS|reflexivity]|]; split; [first [exact L|reflexivity]|]; split; [exact PE|]; split; [first [exact R|reflexivity]|]; split; [now apply N.eqb_neq|]; split; [reflexivity|exact GT]). }
   destruct (proto_of (r_type r)) eqn:PO.
   5: { inversion H. left. auto. }
-  all: destruct (is_start (r_type r)) eqn:IS; [apply (START _ eq_refl eq_refl H)|];
-       destruct (is_client (r_type r) || needs_tunnel (r_type r))%bool; [apply (CONT _ eq_refl eq_refl H)|inversion H; left; auto].
+  all: destruct (is_start (r_type r)) eqn:IS; [apply (START _ eq_refl eq_refl H)|apply (CONT _ eq_refl eq_refl H)].
 Qed.
 
 (* C02: SetupDevice is answered, later TO2 messages are accepted, modules run and vouchers are replaced only in a
@@ -466,7 +463,7 @@ Theorem bad_token_no_effect st r st' resp eff :
 Proof.
   unfold handle, handle_cont. intros L IS H. rewrite L, IS in H.
   destruct (r_type r =? 255); [inversion H; auto|].
-  destruct (proto_of (r_type r)); try destruct (is_client (r_type r) || needs_tunnel (r_type r))%bool; inversion H; auto.
+  destruct (proto_of (r_type r)); inversion H; auto.
 Qed.
 
 (* after an error response or a protocol's final response the session is dead *)
@@ -480,9 +477,7 @@ Proof.
   assert (K : forall x, lookup (update st id (kill x)) (TSess id) = None).
   { intros x. unfold lookup. rewrite nth_update_same by assumption. reflexivity. }
   destruct (proto_of (r_type r)) eqn:PO;
-    try (destruct (is_client (r_type r) || needs_tunnel (r_type r))%bool;
-         [|inversion H; subst; destruct C as [[C _]|C]; discriminate];
-         destruct (negb (proto_eqb (s_proto s) _)); [inversion H; subst; apply K|];
+    try (destruct (negb (proto_eqb (s_proto s) _)); [inversion H; subst; apply K|];
          destruct (needs_tunnel (r_type r) && negb (s_proved s && r_enc r))%bool; [inversion H; subst; apply K|];
          destruct (respond (r_type r) s r) as [[rt s2] e2];
          destruct (rt =? 255) eqn:RT; [inversion H; subst; apply K|];
@@ -510,7 +505,6 @@ Proof.
   destruct (proto_of (r_type r)); try (inversion H; subst; exact D);
     (destruct (is_start (r_type r));
      [unfold handle_start in H; destruct (respond _ _ _) as [[rt s2] e2]; destruct (rt =? 255); inversion H; subst; apply APP|];
-     destruct (is_client (r_type r) || needs_tunnel (r_type r))%bool; [|inversion H; subst; exact D];
      unfold handle_cont in H; destruct (lookup st (r_tok r)) as [[id' s]|] eqn:L; [|inversion H; subst; exact D];
      destruct (negb _); [inversion H; subst; eapply UPD; first [exact L|reflexivity]|];
      destruct (_ && _)%bool; [inversion H; subst; eapply UPD; first [exact L|reflexivity]|];
@@ -608,7 +602,6 @@ Proof.
   destruct (proto_of (r_type r)); try (inversion H; subst; reflexivity);
     (destruct (is_start (r_type r));
      [unfold handle_start in H; destruct (respond _ _ _) as [[rt s2] e2]; destruct (rt =? 255); inversion H; subst; apply APP|];
-     destruct (is_client (r_type r) || needs_tunnel (r_type r))%bool; [|inversion H; subst; reflexivity];
      unfold handle_cont in H; destruct (lookup st (r_tok r)) as [[id' s]|] eqn:L; [|inversion H; subst; reflexivity];
      destruct (negb _); [inversion H; subst; eapply UPD; reflexivity|];
      destruct (_ && _)%bool; [inversion H; subst; eapply UPD; reflexivity|];
@@ -637,8 +630,7 @@ Proof.
   destruct (r_type r =? 255).
   { destruct (nth_error st1 id) as [s|] eqn:N; [destruct (s_alive s)|]; apply FIN; auto; congruence. }
   destruct (proto_of (r_type r)); try (apply FIN; congruence);
-    (destruct (is_client (r_type r) || needs_tunnel (r_type r))%bool; [|apply FIN; congruence];
-     destruct (nth_error st1 id) as [s|] eqn:N; [destruct (s_alive s)|]; try (apply FIN; congruence);
+    (destruct (nth_error st1 id) as [s|] eqn:N; [destruct (s_alive s)|]; try (apply FIN; congruence);
      destruct (negb _); [apply FIN; apply U|];
      destruct (_ && _)%bool; [apply FIN; apply U|];
      destruct (respond _ _ _) as [[rt s2] e2]; destruct (rt =? 255); [apply FIN; apply U|];
